@@ -203,6 +203,12 @@ func (p *runePred) eval(e ast.Expr) runeSet {
 				if cal.Name() == "Is" || cal.Name() == "In" {
 					// unicode.Is(unicode.Letter, r): the table is a package level variable of package unicode
 					if len(t.Args) == 2 && p.isVar(t.Args[1]) {
+						// a table of the repository: var tbl = &unicode.RangeTable{R16: []unicode.Range16{{Lo: .., Hi: .., Stride: ..}}}
+						if tid, ok := ast.Unparen(t.Args[0]).(*ast.Ident); ok {
+							if set, ok := p.rangeTableLiteral(tid); ok {
+								return set
+							}
+						}
 						if sel, ok := ast.Unparen(t.Args[0]).(*ast.SelectorExpr); ok {
 							if tab, ok := unicode.Categories[sel.Sel.Name]; ok {
 								return rsFromTable(tab)
@@ -383,7 +389,7 @@ func (p *runePred) evalBody(body *ast.BlockStmt) (runeSet, bool) {
 func (p *runePred) tableMembership(q *packages.Package, cal *types.Func, tableArg ast.Expr) (runeSet, bool) {
 	qi := q.TypesInfo
 	fd := findFuncDecl(q, cal)
-	if fd == nil || fd.Body == nil || fd.Recv != nil || len(fd.Body.List) != 1 || fd.Type.Params == nil {
+	if fd == nil || fd.Body == nil || fd.Recv != nil || len(fd.Body.List) == 0 || len(fd.Body.List) > 2 || fd.Type.Params == nil {
 		return nil, false
 	}
 	var params []*ast.Ident
@@ -393,29 +399,55 @@ func (p *runePred) tableMembership(q *packages.Package, cal *types.Func, tableAr
 	if len(params) != 2 {
 		return nil, false
 	}
-	ret, ok := fd.Body.List[0].(*ast.ReturnStmt)
-	if !ok || len(ret.Results) != 1 {
-		return nil, false
+	var elemCond ast.Expr
+	elemName := ""
+	if len(fd.Body.List) == 2 {
+		// for _, x := range ranges { if <cond over r, x.f> { return true } }; return false
+		rs, ok1 := fd.Body.List[0].(*ast.RangeStmt)
+		last, ok2 := fd.Body.List[1].(*ast.ReturnStmt)
+		if !ok1 || !ok2 || len(last.Results) != 1 || nodeStr(p.c.Fset, last.Results[0]) != "false" || len(rs.Body.List) != 1 || rs.Value == nil {
+			return nil, false
+		}
+		if id, ok := ast.Unparen(rs.X).(*ast.Ident); !ok || qi.ObjectOf(id) != qi.Defs[params[1]] {
+			return nil, false
+		}
+		ifs, ok := rs.Body.List[0].(*ast.IfStmt)
+		if !ok || ifs.Init != nil || ifs.Else != nil || len(ifs.Body.List) != 1 {
+			return nil, false
+		}
+		if r, ok := ifs.Body.List[0].(*ast.ReturnStmt); !ok || len(r.Results) != 1 || nodeStr(p.c.Fset, r.Results[0]) != "true" {
+			return nil, false
+		}
+		vid, ok := rs.Value.(*ast.Ident)
+		if !ok {
+			return nil, false
+		}
+		elemCond, elemName = ifs.Cond, vid.Name
+	} else {
+		ret, ok := fd.Body.List[0].(*ast.ReturnStmt)
+		if !ok || len(ret.Results) != 1 {
+			return nil, false
+		}
+		cf, ok := ast.Unparen(ret.Results[0]).(*ast.CallExpr)
+		if !ok || len(cf.Args) != 2 {
+			return nil, false
+		}
+		if c2 := Callee(qi, cf); c2 == nil || c2.Pkg() == nil || c2.Pkg().Path() != "slices" || c2.Name() != "ContainsFunc" {
+			return nil, false
+		}
+		if id, ok := ast.Unparen(cf.Args[0]).(*ast.Ident); !ok || qi.ObjectOf(id) != qi.Defs[params[1]] {
+			return nil, false
+		}
+		lit, ok := ast.Unparen(cf.Args[1]).(*ast.FuncLit)
+		if !ok || len(lit.Body.List) != 1 || lit.Type.Params.NumFields() != 1 || len(lit.Type.Params.List[0].Names) != 1 {
+			return nil, false
+		}
+		lr, ok := lit.Body.List[0].(*ast.ReturnStmt)
+		if !ok || len(lr.Results) != 1 {
+			return nil, false
+		}
+		elemCond, elemName = lr.Results[0], lit.Type.Params.List[0].Names[0].Name
 	}
-	cf, ok := ast.Unparen(ret.Results[0]).(*ast.CallExpr)
-	if !ok || len(cf.Args) != 2 {
-		return nil, false
-	}
-	if c2 := Callee(qi, cf); c2 == nil || c2.Pkg() == nil || c2.Pkg().Path() != "slices" || c2.Name() != "ContainsFunc" {
-		return nil, false
-	}
-	if id, ok := ast.Unparen(cf.Args[0]).(*ast.Ident); !ok || qi.ObjectOf(id) != qi.Defs[params[1]] {
-		return nil, false
-	}
-	lit, ok := ast.Unparen(cf.Args[1]).(*ast.FuncLit)
-	if !ok || len(lit.Body.List) != 1 || lit.Type.Params.NumFields() != 1 || len(lit.Type.Params.List[0].Names) != 1 {
-		return nil, false
-	}
-	lret, ok := lit.Body.List[0].(*ast.ReturnStmt)
-	if !ok || len(lret.Results) != 1 {
-		return nil, false
-	}
-	elemName := lit.Type.Params.List[0].Names[0].Name
 	// the table
 	tid, ok := ast.Unparen(tableArg).(*ast.Ident)
 	if !ok {
@@ -470,11 +502,91 @@ func (p *runePred) tableMembership(q *packages.Package, cal *types.Func, tableAr
 			consts[elemName+"."+name] = rune(v)
 		}
 		sub := &runePred{c: p.c, pkg: q, v: qi.Defs[params[0]], assume: map[string]bool{}, depth: p.depth + 1, consts: consts}
-		set := sub.eval(lret.Results[0])
+		set := sub.eval(elemCond)
 		if sub.fail != "" {
 			return nil, false
 		}
 		res = rsUnion(res, set)
 	}
 	return res, true
+}
+
+// rangeTableLiteral reads a package level *unicode.RangeTable literal that is never assigned.
+func (p *runePred) rangeTableLiteral(id *ast.Ident) (runeSet, bool) {
+	info := p.pkg.TypesInfo
+	v, ok := info.ObjectOf(id).(*types.Var)
+	if !ok || v.Pkg() == nil || v.Parent() != v.Pkg().Scope() {
+		return nil, false
+	}
+	rhs, has := singleDefExpr[v]
+	if !has {
+		return nil, false
+	}
+	e := ast.Unparen(rhs)
+	if u, ok := e.(*ast.UnaryExpr); ok && u.Op == token.AND {
+		e = ast.Unparen(u.X)
+	}
+	cl, ok := e.(*ast.CompositeLit)
+	if !ok || !isNamed(info.TypeOf(cl), "unicode", "RangeTable") {
+		return nil, false
+	}
+	var res runeSet
+	for _, el := range cl.Elts {
+		kv, ok := el.(*ast.KeyValueExpr)
+		if !ok {
+			return nil, false
+		}
+		kid, ok := kv.Key.(*ast.Ident)
+		if !ok {
+			return nil, false
+		}
+		if kid.Name == "LatinOffset" {
+			continue
+		}
+		if kid.Name != "R16" && kid.Name != "R32" {
+			return nil, false
+		}
+		rl, ok := ast.Unparen(kv.Value).(*ast.CompositeLit)
+		if !ok {
+			return nil, false
+		}
+		for _, re := range rl.Elts {
+			rc, ok := ast.Unparen(re).(*ast.CompositeLit)
+			if !ok {
+				return nil, false
+			}
+			vals := map[string]int64{}
+			for i, fe := range rc.Elts {
+				name := []string{"Lo", "Hi", "Stride"}[min(i, 2)]
+				val := fe
+				if fkv, ok := fe.(*ast.KeyValueExpr); ok {
+					if fid, ok := fkv.Key.(*ast.Ident); ok {
+						name = fid.Name
+					}
+					val = fkv.Value
+				}
+				tv := info.Types[val]
+				if tv.Value == nil {
+					return nil, false
+				}
+				n, ok := constant.Int64Val(constant.ToInt(tv.Value))
+				if !ok {
+					return nil, false
+				}
+				vals[name] = n
+			}
+			lo, hi, stride := vals["Lo"], vals["Hi"], vals["Stride"]
+			if stride <= 0 || hi < lo || hi-lo > 0x110000 {
+				return nil, false
+			}
+			if stride == 1 {
+				res = append(res, runeIv{rune(lo), rune(hi)})
+			} else {
+				for r := lo; r <= hi; r += stride {
+					res = append(res, runeIv{rune(r), rune(r)})
+				}
+			}
+		}
+	}
+	return rsNorm(res), true
 }
